@@ -74,7 +74,7 @@ fn single_map(r: &mut Rng, kt: KType, params: Params) -> Vec<MapSpec> {
 }
 
 fn base_episode(prop: &str, profile: &str, seed: u64, maps: Vec<MapSpec>, steps: Vec<Step>, checks: Checks) -> Episode {
-    Episode { property: prop.to_string(), profile: profile.to_string(), seed, maps, steps, faults: vec![], buggify: None, checks, plan: Plan::Single, poison: 0, preload: None }
+    Episode { property: prop.to_string(), profile: profile.to_string(), seed, maps, steps, faults: vec![], buggify: None, checks, plan: Plan::Single, poison: 0, preload: None, isolate: false }
 }
 
 fn small_params(r: &mut Rng) -> Params {
@@ -346,7 +346,9 @@ pub fn c07_permille_probe(seed: u64, quick: bool) -> Episode {
     }
     st.push(Step::Audit);
     let checks = Checks { model: true, panics: true, ..Default::default() };
-    base_episode("C07", "permille-lt-1000-probe", seed, maps, st, checks)
+    let mut ep = base_episode("C07", "permille-lt-1000-probe", seed, maps, st, checks);
+    ep.isolate = true;
+    ep
 }
 
 pub fn c07(seed: u64, tier: Tier, index: u64) -> Vec<Episode> {
